@@ -399,6 +399,7 @@ class World:
                 self._by_name.setdefault(fi.name, []).append(fi)
         for fi in funcs:
             self._summ[fi.key] = set()
+            self._ret[fi.key] = {'fresh'}       # least fixpoint: start from "returns nothing aliased"
         for fi in funcs:
             self.fns[fi.key] = FnEffects(P, fi, self)
         for _ in range(8):
